@@ -16,23 +16,23 @@ import (
 // shrink anything.
 type Op struct {
 	Op  string   `json:"op"`
-	H   int      `json:"h,omitempty"`   // handle / instance index
-	H2  int      `json:"h2,omitempty"`  // second handle
-	I   int      `json:"i,omitempty"`   // integer argument
-	J   int      `json:"j,omitempty"`   // second integer argument
-	S   string   `json:"s,omitempty"`   // string argument
-	S2  string   `json:"s2,omitempty"`  // second string argument
-	V   *Val     `json:"v,omitempty"`   // value argument
-	Vs  []Val    `json:"vs,omitempty"`  // value list argument
-	Ss  []string `json:"ss,omitempty"`  // string list argument
+	H   int      `json:"h,omitempty"`  // handle / instance index
+	H2  int      `json:"h2,omitempty"` // second handle
+	I   int      `json:"i,omitempty"`  // integer argument
+	J   int      `json:"j,omitempty"`  // second integer argument
+	S   string   `json:"s,omitempty"`  // string argument
+	S2  string   `json:"s2,omitempty"` // second string argument
+	V   *Val     `json:"v,omitempty"`  // value argument
+	Vs  []Val    `json:"vs,omitempty"` // value list argument
+	Ss  []string `json:"ss,omitempty"` // string list argument
 	F   *Fault   `json:"fault,omitempty"`
 	Set int      `json:"set,omitempty"` // variable set index
 }
 
 // Fault is a fault placed inside one operation at a seam of DESIGN §1.
 type Fault struct {
-	Kind string `json:"kind"`         // eof_at | fail_at | abandon_after | fn_error | fn_panic | var_missing | op_error
-	At   int    `json:"at"`           // seam call index / token count
+	Kind string `json:"kind"` // eof_at | fail_at | abandon_after | fn_error | fn_panic | var_missing | op_error
+	At   int    `json:"at"`   // seam call index / token count
 	Name string `json:"name,omitempty"`
 }
 
